@@ -108,6 +108,11 @@ func (x *X) translate(fi *FuncInfo) {
 		return
 	}
 	params := paramVars(fi)
+	for _, p := range params {
+		if effectfulCallback(p.Type()) {
+			fi.effectful = true
+		}
+	}
 	var header []string
 	for _, p := range params {
 		header = append(header, fmt.Sprintf("(%s : %s)", c.varName(p), x.leanType(p.Type(), false)))
@@ -153,11 +158,8 @@ func (x *X) translate(fi *FuncInfo) {
 	}
 	name, line := posLine(x.fset, fi.decl.Pos())
 	fmt.Fprintf(&sb, "/-- %s:%d `%s` -/\n", name, line, fi.obj.FullName())
-	if fi.effectful && len(c.loopDefs) > 0 {
-		bad("loop inside a function that uses the environment")
-	}
 	if fi.effectful {
-		fmt.Fprintf(&sb, "def %s {σ : Type} (E : Env σ) %s : StateT σ R %s := do\n", fi.lean, strings.Join(header, " "), rt)
+		fmt.Fprintf(&sb, "def %s {σ : Type} (E : %s σ) %s : StateT σ R %s := do\n", fi.lean, c.envName(), strings.Join(header, " "), rt)
 	} else if fi.mayFail {
 		fmt.Fprintf(&sb, "def %s %s : R %s := do\n", fi.lean, strings.Join(header, " "), rt)
 	} else {
@@ -306,6 +308,10 @@ func (c *fctx) stmt(o *out, ind int, s ast.Stmt) {
 	case *ast.BlockStmt:
 		c.block(o, ind, t.List)
 	case *ast.EmptyStmt:
+	case *ast.DeferStmt:
+		if !isIgnorable(calleeFunc(c.info, t.Call)) {
+			bad("defer at %s", c.site(s.Pos()))
+		}
 	case *ast.ExprStmt:
 		call, ok := t.X.(*ast.CallExpr)
 		if !ok {
